@@ -200,7 +200,7 @@ def ledger_traces(run, runs=None):
         from vlib import parse_stats
         st = parse_stats(out) or {"distinct": 0, "generated": 0}
         total_states += st["distinct"]
-        m = re.search(r'TRACE-REJECTED at event", (\d+)', out)
+        m = re.search(r'TRACE-REJECTED at event",\s*(\d+)', out)
         if "No error has been found" in out and not m:
             validated_runs += sum(1 for r in inputs if r["first_event"] > offset)
             offset = len(events)
